@@ -28,10 +28,12 @@ const (
 )
 
 type NodeSpec struct {
-	Kind    int
-	TKind   int
-	Err     bool
-	Cleanup bool
+	Kind     int
+	TKind    int
+	Err      bool
+	Cleanup  bool
+	Lib      bool // type and provider live in the lib package
+	Variadic bool // NFunc: the last dependency (a slice-typed node) is taken as a variadic parameter
 }
 
 // GraphSpec describes a provider graph: Adj[i] lists the nodes node i depends on.
@@ -42,6 +44,7 @@ type GraphSpec struct {
 	Root       int
 	InSet      bool // items in a named set (unused members allowed) instead of direct Build arguments
 	InjMore    bool // injector declares error and cleanup results whether needed or not
+	Split      bool // the items of lib nodes go to a named set declared in the lib package, included by the main set
 	Hist       int
 	ExtraItems func(b *ir.Builder, types []*ir.Type) []*ir.Item
 }
@@ -66,9 +69,16 @@ func (g *GraphSpec) Build() (*ir.Program, []*ir.Type) {
 	p := b.Root
 	n := g.N
 	types := make([]*ir.Type, n)
+	pkgOf := func(i int) *ir.Pkg {
+		if g.Nodes[i].Lib {
+			return b.Lib
+		}
+		return b.Root
+	}
 	for i := 0; i < n; i++ {
 		name := fmt.Sprintf("T%d", i)
 		nd := g.Nodes[i]
+		p := pkgOf(i)
 		switch nd.Kind {
 		case NStruct:
 			types[i] = ir.Ptr(b.Agg(p, name))
@@ -82,11 +92,13 @@ func (g *GraphSpec) Build() (*ir.Program, []*ir.Type) {
 			types[i] = shapeType(b, p, name, nd.TKind)
 		}
 	}
-	var items []*ir.Item
+	var items, items2 []*ir.Item
 	var params []ir.Param
 	needErr, needCleanup := false, false
 	for i := 0; i < n; i++ {
 		nd := g.Nodes[i]
+		p := pkgOf(i)
+		start := len(items)
 		var deps []*ir.Type
 		for _, j := range g.Adj[i] {
 			deps = append(deps, types[j])
@@ -99,7 +111,8 @@ func (g *GraphSpec) Build() (*ir.Program, []*ir.Type) {
 		}
 		switch nd.Kind {
 		case NFunc:
-			items = append(items, ir.FuncItem(&ir.Func{Pkg: p, Name: fmt.Sprintf("P%d", i), Params: deps, Out: types[i], Err: nd.Err, Cleanup: nd.Cleanup}))
+			variadic := nd.Variadic && len(deps) > 0 && deps[len(deps)-1].Kind == ir.KSlice
+			items = append(items, ir.FuncItem(&ir.Func{Pkg: p, Name: fmt.Sprintf("P%d", i), Params: deps, Out: types[i], Err: nd.Err, Cleanup: nd.Cleanup, Variadic: variadic}))
 		case NStruct, NStructV:
 			agg := types[i]
 			if agg.Kind == ir.KPtr {
@@ -135,6 +148,13 @@ func (g *GraphSpec) Build() (*ir.Program, []*ir.Type) {
 		case NParam:
 			params = append(params, ir.Param{Name: fmt.Sprintf("arg%d", i), T: types[i]})
 		}
+		if g.Split && nd.Lib && nd.Kind != NParam {
+			items2 = append(items2, items[start:]...)
+			items = items[:start]
+		}
+	}
+	if g.Split && len(items2) > 0 {
+		items = append(items, ir.SetRef(&ir.Set{Pkg: b.Lib, Name: "LibSet", Items: items2}))
 	}
 	if g.ExtraItems != nil {
 		items = append(items, g.ExtraItems(b, types)...)
